@@ -138,6 +138,58 @@ def run(tier, seed, replay=None):
         except Exception as ex:
             V.fail("frame identity check raises %s" % type(ex).__name__, dict(desc, exc=str(ex)[:200]))
     dist["frame identity (exact)"] = n_frame
+    # ---- exact correspondence of the interface recursions and of the local operator with Model/Local.v: the helper functions of torchtt/solvers.py
+    # (_compute_phi_fwd_A, _compute_phi_bck_A, _compute_phi_fwd_rhs, _compute_phi_bck_rhs, _local_product, _LinearOp.matvec) on small-integer data
+    import torchtt.solvers as SV
+    rng_l = random.Random(seed + 53)
+    lcases, lmeta = [], []
+    def ia(shape): return np.array([rng_l.randint(-2, 2) for _ in range(int(np.prod(shape)))], dtype=np.float64).reshape(shape)
+    def zl(a_): return coqrun.zlist(np.asarray(a_).reshape(-1))
+    def o3(a_): return "(%d%%nat,%d%%nat,%d%%nat,%s)" % (a_.shape[0], a_.shape[1], a_.shape[2], zl(a_))
+    def o4(a_): return "(%d%%nat,%d%%nat,%d%%nat,%d%%nat,%s)" % (a_.shape[0], a_.shape[1], a_.shape[2], a_.shape[3], zl(a_))
+    T_ = lambda a_: torch.tensor(a_, dtype=torch.float64)
+    for j in range(36 if tier == "quick" else 360):
+        ra, rb, rs, rS = [rng_l.choice([1, 2, 3]) for _ in range(4)]; m_, n_ = rng_l.choice([1, 2, 3]), rng_l.choice([1, 2, 3])
+        la, lb = rng_l.choice([1, 2, 3]), rng_l.choice([1, 2])         # ranks of the left train may differ from those of the right one (z / x interfaces of the enrichment)
+        kind_ = ["phi_fwd", "phi_bck", "phib_fwd", "phib_bck", "local_product", "linop"][j % 6]
+        try:
+            if kind_ in ("phi_fwd", "phi_bck"):
+                a_, c_, b_ = ia((la, m_, lb)), ia((rs, m_, n_, rS)), ia((ra, n_, rb))
+                if kind_ == "phi_fwd":
+                    P_ = ia((la, rs, ra)); out = SV._compute_phi_fwd_A(T_(P_), T_(a_), T_(c_), T_(b_))
+                    lcases.append("[check_phi_fwd (R:=Z) %d %d %s %s %s %s %s]" % (rs, ra, zl(P_), o3(a_), o4(c_), o3(b_), zl(out.numpy())))
+                else:
+                    P_ = ia((lb, rS, rb)); out = SV._compute_phi_bck_A(T_(P_), T_(a_), T_(c_), T_(b_))
+                    lcases.append("[check_phi_bck (R:=Z) %d %d %s %s %s %s %s]" % (rS, rb, zl(P_), o3(a_), o4(c_), o3(b_), zl(out.numpy())))
+            elif kind_ in ("phib_fwd", "phib_bck"):
+                bc_, x_ = ia((rs, n_, rS)), ia((ra, n_, rb))
+                if kind_ == "phib_fwd":
+                    P_ = ia((rs, ra)); out = SV._compute_phi_fwd_rhs(T_(P_), T_(bc_), T_(x_))
+                    lcases.append("[check_phib_fwd (R:=Z) %d %s %s %s %s]" % (ra, zl(P_), o3(bc_), o3(x_), zl(out.numpy())))
+                else:
+                    P_ = ia((rS, rb)); out = SV._compute_phi_bck_rhs(T_(P_), T_(bc_), T_(x_))
+                    lcases.append("[check_phib_bck (R:=Z) %d %s %s %s %s]" % (rb, zl(P_), o3(bc_), o3(x_), zl(out.numpy())))
+            else:
+                n_ = m_                                               # the local operator is square
+                PL_, PR_, c_, x_ = ia((ra, rs, ra)), ia((rb, rS, rb)), ia((rs, m_, n_, rS)), ia((ra, n_, rb))
+                if kind_ == "local_product":
+                    out = SV._local_product(T_(PR_), T_(PL_), T_(c_), T_(x_), list(x_.shape))
+                else:
+                    out = SV._LinearOp(T_(PL_), T_(PR_), T_(c_), list(x_.shape), None).matvec(T_(x_).reshape(-1, 1), False)
+                lcases.append("[check_local_product (R:=Z) %d %d %s %s %d %d %s %s %s]" % (rs, ra, zl(PL_), o4(c_), rS, rb, zl(PR_), o3(x_), zl(out.numpy())))
+            lmeta.append({"local_correspondence": kind_, "case": j})
+        except Exception as ex:
+            V.fail("local correspondence: %s raises %s" % (kind_, type(ex).__name__), {"kind": kind_, "exc": str(ex)[:200]}, failing_input=False)
+    n_local = 0
+    if ok_make and lcases:
+        try:
+            codes = coqrun.eval_nat_lists("C12_local", "From TT Require Import RingSig Instances Core Local.", "", lcases, shard=60)
+            for dsc, c in zip(lmeta, codes):
+                if c != [0]: V.fail("correspondence(model/impl): %s of torchtt/solvers.py differs from Model/Local.v" % dsc["local_correspondence"], dict(dsc, model_code=c, expr=lcases[dsc["case"]][:1500]))
+                else: n_local += 1
+        except Exception as ex:
+            V.fail("local correspondence: the model could not be evaluated", {"exc": str(ex)[:300]}, failing_input=False)
+    dist["local operator / interface recursions exact"] = n_local
     # ---- tiny systems whose first local right-hand side vanishes exactly (zero-sum last core of b, default start): the local tolerance is
     # eps*||rhs|| = 0 and the small local system is solved exactly after a few Krylov steps - every local solver must survive that
     rng_t = random.Random(seed + 17)
